@@ -51,3 +51,16 @@ def replay(prop, witness):
         return run_harness(script, ["--prop", prop, "--replay", path], 300)
     finally:
         os.unlink(path)
+
+
+def bounded_walk(tier, what, name, rule):
+    """bounded stand-in: exhaustive native check of the walk / bulk / query contracts (never counted as proved)"""
+    nodes, frames = (6, 4) if tier == "thorough" and "walk" in what else (5, 4)
+    r = run_harness("walk_bounded.py", ["--what", what, "--nodes", str(nodes), "--frames", str(frames)], 3000)
+    out = {"name": name, "rule": rule + f"; every time-forward binary forest with <= {nodes} nodes over <= {frames} frames",
+           "bound": {"nodes": nodes, "frames": frames}, "cases": r.get("cases", 0), "nontrivial": r.get("nontrivial", 0),
+           "exhaustive": True, "wall_s": r.get("wall"), "violations": [dict(v, script="walk_bounded.py") for v in r.get("violations", [])]}
+    if "cases" not in r:
+        out["violations"] = []
+        out["error"] = r.get("search_error", "no result")
+    return out
